@@ -18,6 +18,12 @@ CHECKS = {
  'C03': ('exploration', 'reference-model monitor over enumerated and sampled executions (set model of constraints vs evaluator, E and E&atom for every atom)',
    'Exhaustive for conjunctions of <=2 constraints over the full alphabet x every atom (|E|=3 numeric sub-alphabet in thorough), PRNG-sampled beyond, plus large-magnitude/high-precision bounds probed at +-1 ulp and predeclared ranges probed around their limits; a finite set model decides each observed evaluation. Universal only inside the enumerated sub-space.',
    'Trusts the 150-line set model (written from the statement/spec), Go regexp for =~, and cue.Value accessors used to read results back.', 'DESIGN.md §4 C03'),
+ 'C10': ('exploration', 'generator-ground-truth monitor: data trees written as CUE and as JSON documents (PRNG escape/whitespace/number spellings); Value.MarshalJSON, json.Marshal/Unmarshal builtins, json.Extract/Valid/NewDecoder observed and compared with the ground truth, encoding/json as independent reader; invalid neighbours must be rejected',
+   '10k/300k data trees per run, each through the marshal, extract, re-marshal, stream and builtin paths plus one invalid mutant.',
+   'Duplicate keys with different values and unpaired surrogates (unpredictable per RFC 8259) are not generated. One recorded finding (raw BOM inside a JSON string).', 'DESIGN.md §4 C10'),
+ 'C11': ('exploration', 'generator-ground-truth monitor: yaml.Encode -> yaml.Extract -> evaluate compared with the tree that was encoded; failing trees are shrunk to the single strings/keys that fail on their own; JSON documents through the YAML decoder; yaml.Marshal/Unmarshal builtins; two independent YAML libraries as recorded second opinions',
+   '30k/600k trees with the adversarial string pool (incl. multi-line strings with blank, tab-only and padded lines) as scalars and keys through the default (goccy) implementation; the yaml.v3 implementation (CUE_EXPERIMENT=yamlgoccy=0) runs in a recorded, non-alarming stream.',
+   'The yaml.v3 path is not alarmed (not the default since v0.18). One recorded finding (tab as JSON whitespace refused by the YAML parser).', 'DESIGN.md §4 C11'),
  'C14': ('exploration', 'runtime monitoring of instrumented Reqs callbacks (event log: call counts, concurrency, visit orders) under permuted lists and injected latencies with the race detector; results compared with a sequential fixpoint model; semver against an independent SemVer 2.0 model + order axioms',
    'Random requirement graphs, each run under several (permutation x latency) schedules with -race; BuildList/Req/Upgrade/UpgradeAll/Graph decided by a brute-force closure, Downgrade by invariants; semver on random valid/near-valid triples.',
    'Trusts the brute-force closure and the SemVer model (unit-tested against the semver.org examples); schedules are the ones the Go scheduler produced under the injected latencies.', 'DESIGN.md §4 C14'),
